@@ -170,6 +170,50 @@ static void prop_c01(Tape &t, Result &r) {
 }
 static Reg reg_c01({"C01", 500, prop_c01, nullptr, nullptr});
 
+// ------------------------------------------------------------------------------------ C10 (semantic level)
+// programs that use the temporary-using library macros (IF-THEN-ELSE, SWAP, REPEAT), nested in their
+// own slots and repeated; the oracle is C01's (native meaning of the constructs)
+static int count_temp_macros(const std::vector<gp::Stmt> &b) {
+  int n = 0;
+  for (auto &s : b) {
+    if (s.k == gp::Stmt::M_IFELSE || s.k == gp::Stmt::M_SWAP || s.k == gp::Stmt::M_REPEAT) n++;
+    n += count_temp_macros(s.body) + count_temp_macros(s.body2);
+  }
+  return n;
+}
+static void prop_c10(Tape &t, Result &r) {
+  gp::GenCfg cfg;
+  cfg.user_macros = true;
+  cfg.max_stmts = 30;
+  Case c;
+  decode_case(t, cfg, false, c);
+  r.sample = case_json(c);
+  r.hash = glue::files_hash(c.layout.files, c.layout.main);
+  add_feature_classes(c, r);
+  int uses = count_temp_macros(c.prog.main);
+  for (auto &d : c.prog.defs) uses += count_temp_macros(d.body);
+  Theo::CodegenResult cr;
+  if (!compile_case(c, cr, r, "hygiene")) return;
+  ri::Interp in(c.prog, nullptr);
+  ri::Interp::Status st = in.execute();
+  if (st != ri::Interp::DONE) {
+    r.discard = true;
+    r.cls(st == ri::Interp::BIG ? "ref:big-values" : "ref:diverged");
+    return;
+  }
+  Theo::VM vm(cr.code);
+  long long budget = 40 * in.work + 4000;
+  for (long long i = 0; i < budget && !vm.isDone(); i++) vm.executeSingle();
+  if (!vm.isDone()) {
+    r.fail("hygiene:vm-does-not-halt", "reference finished, VM still running after " + std::to_string(budget) + " instructions");
+    return;
+  }
+  if (!compare_state(vm, cr.code, in, r, "hygiene", "at the end: ")) return;
+  if (uses >= 2) r.cls("temporary-using-macros>=2");
+  r.nontrivial = uses >= 2 && (in.loop_iters >= 1 || in.calls >= 1);
+}
+static Reg reg_c10({"C10", 500, prop_c10, nullptr, nullptr});
+
 // ------------------------------------------------------------------------------------ C07
 struct AbortRun {};
 
